@@ -28,7 +28,7 @@ import (
 	"github.com/dolthub/dolt/go/zzverif/vsql"
 )
 
-const c08Rule = "one server, one fresh database per case. Builder session (autocommit, @@dolt_allow_commit_conflicts=1): tables t(pk,c1,c2), u(pk,v), d(pk,n) with 3-6 rows and big(pk, who, doc TEXT, bin BLOB, js JSON) whose cells are drawn from the size classes inline (1-300 bytes), around the 2048-byte inline/out-of-line threshold, out of line (2.5-7 KB) and multi-chunk (12-24 KB): 2 rows at the start, one more in the second commit of 2 of 3 side branches, optionally in a stash, staged and working-only on main, and one written by a writer session before the GC (+ optionally 150/400 bulk rows so trees have two levels), commit; a drawn subset of features: file remote `origin` (push main, later fetch so remotes/origin/main lags; optionally a branch pushed and then deleted locally so only the remote-tracking ref holds it), tags (one optionally on the head of a branch that is deleted afterwards), in 3 of 4 cases an early collection in the middle of the history (dolt_gc() or dolt_gc('--full'), so later garbage and older data sit in the old generation) followed in 4 of 5 of those by a demotion of data that was committed on branch `keep` before it (tag + reset --hard HEAD~1, reset --soft HEAD~1, or reset --soft + stash: afterwards only a tag, a working set or a stash reaches that data), the collection under test then being --full in half of these cases (orders default→full, full→default, full→full, default→default all occur, and the second GC after the writers is --full in half of all cases), a deleted branch with two unique commits, in-progress conflicted dolt_merge (optionally over an uncommitted change to a table main did not touch), dolt_cherry_pick, dolt_revert, interactive dolt_rebase stopped at a conflict (plan optionally edited: squash / reword / drop), 1-2 stashes, staged != working on main, an untracked table. Then 0-3 writer sessions (each on its own branch, incl. conflicted ones) open a transaction and insert 1-2 fresh rows; the GC statement (mode default | --full | --shallow, archive level unset | 0 | 1) runs from a fresh session (the builder session still connected, or disconnected first), from the builder session, or from a session that itself has an open transaction with a pending insert; the writers run 0-2 more inserts and finish with COMMIT or dolt_commit('-am'). Oracle: vsql.Fingerprint (+ the dolt_rebase plan) before GC == after GC; closure walk (types.WalkAddrsFromNomsValue from every dataset head over the server's chunk store) finds every address, after GC, after the writers committed and after a second GC (mode drawn again); after the writers finish every fingerprint line of a branch nobody wrote is unchanged and the written branches contain exactly the old rows plus the written ones; second GC leaves the fingerprint unchanged; finally every in-progress operation is either aborted (working and staged tables of that branch must equal the snapshot taken before the operation started, when no writer touched the branch), or resolved and committed/continued (must succeed), and the final fingerprint has no unreadable part. Non-trivial (DESIGN): at least 3 of {stash, in-progress merge/cherry-pick/revert, in-progress rebase, staged != working, tag, remote ref} and garbage was really collected (the .dolt directory shrank or the deleted branch's head commit is no longer in the store); distinct by feature set + modes + writer plan."
+const c08Rule = "one server, one fresh database per case whose name is created in a drawn case (lower / Mixed / UPPER) and spelled by every session (builder, writers, GC caller, finishing sessions: USE db, USE db/branch) in its own drawn case (as created / lower / upper). Builder session (autocommit, @@dolt_allow_commit_conflicts=1): tables t(pk,c1,c2), u(pk,v), d(pk,n) with 3-6 rows and big(pk, who, doc TEXT, bin BLOB, js JSON) whose cells are drawn from the size classes inline (1-300 bytes), around the 2048-byte inline/out-of-line threshold, out of line (2.5-7 KB) and multi-chunk (12-24 KB): 2 rows at the start, one more in the second commit of 2 of 3 side branches, optionally in a stash, staged and working-only on main, and one written by a writer session before the GC (+ optionally 150/400 bulk rows so trees have two levels), commit; a drawn subset of features: file remote `origin` (push main, later fetch so remotes/origin/main lags; optionally a branch pushed and then deleted locally so only the remote-tracking ref holds it), tags (one optionally on the head of a branch that is deleted afterwards), in 3 of 4 cases an early collection in the middle of the history (dolt_gc() or dolt_gc('--full'), so later garbage and older data sit in the old generation) followed in 4 of 5 of those by a demotion of data that was committed on branch `keep` before it (tag + reset --hard HEAD~1, reset --soft HEAD~1, or reset --soft + stash: afterwards only a tag, a working set or a stash reaches that data), the collection under test then being --full in half of these cases (orders default→full, full→default, full→full, default→default all occur, and the second GC after the writers is --full in half of all cases), a deleted branch with two unique commits, in-progress conflicted dolt_merge (optionally over an uncommitted change to a table main did not touch), dolt_cherry_pick, dolt_revert, interactive dolt_rebase stopped at a conflict (plan optionally edited: squash / reword / drop), 1-2 stashes, staged != working on main, an untracked table. Then 0-3 writer sessions (each on its own branch, incl. conflicted ones) open a transaction and insert 1-2 fresh rows; the GC statement (mode default | --full | --shallow, archive level unset | 0 | 1) runs from a fresh session (the builder session still connected, or disconnected first), from the builder session, or from a session that itself has an open transaction with a pending insert; the writers run 0-2 more inserts and finish with COMMIT or dolt_commit('-am'). Oracle: vsql.Fingerprint (+ the dolt_rebase plan) before GC == after GC; closure walk (types.WalkAddrsFromNomsValue from every dataset head over the server's chunk store) finds every address, after GC, after the writers committed and after a second GC (mode drawn again); after the writers finish every fingerprint line of a branch nobody wrote is unchanged and the written branches contain exactly the old rows plus the written ones; second GC leaves the fingerprint unchanged; finally every in-progress operation is either aborted (working and staged tables of that branch must equal the snapshot taken before the operation started, when no writer touched the branch), or resolved and committed/continued (must succeed), and the final fingerprint has no unreadable part. Non-trivial (DESIGN): at least 3 of {stash, in-progress merge/cherry-pick/revert, in-progress rebase, staged != working, tag, remote ref} and garbage was really collected (the .dolt directory shrank or the deleted branch's head commit is no longer in the store); distinct by feature set + modes + writer plan."
 
 var c08Assumptions = []string{
 	"online GC uses the session-aware safepoint controller (the default): connections stay usable after dolt_gc, so sessions do not reconnect",
@@ -270,11 +270,11 @@ func TestVerif_C08(t *testing.T) {
 }
 
 func c08Run(rt *rapid.T, srv *vsql.Server, admin *vsql.Session, scratch string, rec *vh.Recorder) {
-	db := srv.NewDBName()
-	admin.MustExec(rt, "CREATE DATABASE "+db)
-	defer admin.Exec("DROP DATABASE " + db)
+	db := gcDrawDBName(rt, srv, "db") // created spelling; every session draws its own spelling of it
+	admin.MustExec(rt, "CREATE DATABASE `"+db+"`")
+	defer admin.Exec("DROP DATABASE `" + db + "`")
 	c := &c08Case{rt: rt, srv: srv, db: db}
-	a := srv.Session(rt, "a", db)
+	a := srv.Session(rt, "a", gcSpell(rt, "builder", db))
 	defer a.Close()
 	c.a = a
 	x := func(q string) { c.x(a, q) }
@@ -530,7 +530,7 @@ func c08Run(rt *rapid.T, srv *vsql.Server, admin *vsql.Session, scratch string, 
 		w.se = srv.Session(rt, w.name, "")
 		defer w.se.Close()
 		writers = append(writers, w)
-		c.x(w.se, fmt.Sprintf("USE `%s/%s`", db, w.branch))
+		c.x(w.se, fmt.Sprintf("USE `%s/%s`", gcSpell(rt, w.name, db), w.branch))
 		c.x(w.se, "SET @@dolt_allow_commit_conflicts = 1")
 		c.x(w.se, "SET autocommit = 0")
 		if rapid.Bool().Draw(rt, w.name+"_explicit_start") {
@@ -568,7 +568,7 @@ func c08Run(rt *rapid.T, srv *vsql.Server, admin *vsql.Session, scratch string, 
 	caller := rapid.SampledFrom([]string{"fresh", "fresh_builder_gone", "builder", "open_txn"}).Draw(rt, "gc_caller")
 	gcSe := a
 	if caller != "builder" {
-		gcSe = srv.Session(rt, "gc", db)
+		gcSe = srv.Session(rt, "gc", gcSpell(rt, "gc_caller", db))
 		defer gcSe.Close()
 	}
 	if caller == "fresh_builder_gone" {
@@ -592,7 +592,7 @@ func c08Run(rt *rapid.T, srv *vsql.Server, admin *vsql.Session, scratch string, 
 			}
 		}
 		if cb != "" {
-			c.x(gcSe, fmt.Sprintf("USE `%s/%s`", db, cb))
+			c.x(gcSe, fmt.Sprintf("USE `%s/%s`", gcSpell(rt, "gc_caller_txn", db), cb))
 			c.x(gcSe, "SET autocommit = 0")
 			callerPK = 9000
 			c.x(gcSe, fmt.Sprintf("INSERT INTO t VALUES (%d, %d, 'pending in the gc session')", callerPK, callerPK))
@@ -722,7 +722,7 @@ func c08Run(rt *rapid.T, srv *vsql.Server, admin *vsql.Session, scratch string, 
 			continue
 		}
 		se := srv.Session(rt, "end", "")
-		c.x(se, fmt.Sprintf("USE `%s/%s`", db, op.wsName))
+		c.x(se, fmt.Sprintf("USE `%s/%s`", gcSpell(rt, "end_"+op.kind, db), op.wsName))
 		c.x(se, "SET @@dolt_allow_commit_conflicts = 1")
 		if ending == "abort" {
 			switch op.kind {
@@ -804,10 +804,10 @@ func c08Run(rt *rapid.T, srv *vsql.Server, admin *vsql.Session, scratch string, 
 	for _, w := range writers {
 		wdesc = append(wdesc, fmt.Sprintf("%s@%s:%d+%d/%s", w.name, w.branch, w.pre, w.post, w.finish))
 	}
-	desc := fmt.Sprintf("features=%s main=%d init=%d gc=%s level=%s caller=%s writers=[%s] gc2=%s/%s endings=%s",
-		strings.Join(c.feats, ","), mainVal, nInit, mode, level, caller, strings.Join(wdesc, " "), mode2, level2, strings.Join(endings, ","))
+	desc := fmt.Sprintf("db=%s features=%s main=%d init=%d gc=%s level=%s caller=%s writers=[%s] gc2=%s/%s endings=%s",
+		gcNameCase(db), strings.Join(c.feats, ","), mainVal, nInit, mode, level, caller, strings.Join(wdesc, " "), mode2, level2, strings.Join(endings, ","))
 	classes := []string{"mode=" + mode, "level=" + level, "caller=" + caller, fmt.Sprintf("writers=%d", len(writers)), fmt.Sprintf("rich=%d", rich)}
-	classes = append(classes, fmt.Sprintf("gc_order=%s>%s>%s", earlyGC, mode, mode2))
+	classes = append(classes, fmt.Sprintf("gc_order=%s>%s>%s", earlyGC, mode, mode2), gcNameCase(db))
 	for cl := range wide {
 		classes = append(classes, "wide:"+cl)
 	}
